@@ -5,6 +5,7 @@ systematic ASTs (C02), sequence levels (C05), token sequences with admissible ga
 from the seed in the request, so every case replays exactly.
 -/
 import EvalexprVerif.Spec.Ast
+import EvalexprVerif.Spec.AstLoose
 import EvalexprVerif.Spec.Seq
 import EvalexprVerif.Spec.Lex
 import EvalexprVerif.Spec.WellFormed
